@@ -147,6 +147,9 @@ func c19Versioned(c *core.Ctx, pkg *packages.Package) {
 				ok = false
 			}
 		}
+		if !ok && d.name == "Versioned.removeVersion" {
+			ok = c19IsTrimPrefix(fn)
+		}
 		c.Check(ok, "R2", "func="+d.name, fn.Pos(), fmt.Sprintf("every return is %s (returns: %v): distinct caller keys map to distinct backend keys within a version", d.want, rets), 1)
 	}
 	keyRe := regexp.MustCompile(`^recv\.addVersion\((p\d|each\(p\d\)|keyof\(p\d\))\)$`)
@@ -260,7 +263,7 @@ func c19Versioned(c *core.Ctx, pkg *packages.Package) {
 				rc = f.Canon(r.Results[0])
 			}
 		}
-		c.Check(rc == "strings.TrimPrefix(p0, recv.versionPrefix)", "R2", "Versioned.removeVersion", f.Pos(), "removeVersion returns "+rc+" (strips exactly the prefix addVersion adds)", 1)
+		c.Check(rc == "strings.TrimPrefix(p0, recv.versionPrefix)" || c19IsTrimPrefix(f), "R2", "Versioned.removeVersion", f.Pos(), "removeVersion returns "+rc+" (strips exactly the prefix addVersion adds; the HasPrefix+slice and CutPrefix spellings are evaluated as a table)", 1)
 	}
 	if f := an.FindFunc(pkg, "NewVersioned"); f != nil {
 		okP := false
@@ -786,4 +789,57 @@ func c19Selector(c *core.Ctx, pkg *packages.Package) {
 		}
 		c.Check(len(loops) == 1 && loopRets >= 1 && len(badRets) == 0, "R4", "jumpHash:one-path", fn.Pos(), fmt.Sprintf("%d loop(s), %d return(s) of the loop's last bucket, %d constant shortcut(s) for a bucket count ≤ 1, other routes to an answer: %v — every bucket count runs the same jump sequence (append-stability needs it)", len(loops), loopRets, shortcutRets, badRets), 1)
 	}
+}
+
+
+// c19IsTrimPrefix: fn(k) computes strings.TrimPrefix(k, recv.versionPrefix) in one of its equivalent spellings:
+// every return is TrimPrefix itself, the first result of strings.CutPrefix(k, prefix) (which is k when the prefix is
+// absent), k[len(prefix):] reachable only when strings.HasPrefix(k, prefix) holds, or k itself reachable only when it
+// does not hold. Decided by abstract execution over the one atom "has the prefix".
+func c19IsTrimPrefix(fn *an.Fn) bool {
+	g := fn.Graph()
+	type ret struct {
+		loc  an.Loc
+		kind string
+	}
+	var rets []ret
+	for _, b := range g.Blocks {
+		r := an.ReturnOf(b)
+		if r == nil {
+			continue
+		}
+		if len(r.Results) != 1 {
+			return false
+		}
+		switch fn.Canon(r.Results[0]) {
+		case "strings.TrimPrefix(p0, recv.versionPrefix)", "strings.CutPrefix(p0, recv.versionPrefix)#0":
+			rets = append(rets, ret{g.Locate(r), "any"})
+		case "p0[len(recv.versionPrefix):]":
+			rets = append(rets, ret{g.Locate(r), "has"})
+		case "p0":
+			rets = append(rets, ret{g.Locate(r), "hasnot"})
+		default:
+			return false
+		}
+	}
+	if len(rets) == 0 {
+		return false
+	}
+	var locs []an.Loc
+	for _, r := range rets {
+		locs = append(locs, r.loc)
+	}
+	for _, v := range []string{"T", "F"} {
+		b := &an.Binder{Fn: fn, Bool: map[string]string{"strings.HasPrefix(p0, recv.versionPrefix)": "hp", "strings.CutPrefix(p0, recv.versionPrefix)#1": "hp"}, Row: an.Row{"hp": v}, Unknown: map[string]bool{}}
+		ex := g.Exec(g.EntryLoc(), locs, b.Leaf, an.ExecOpts{})
+		if ex.Overflow || len(b.Unknown) > 0 {
+			return false
+		}
+		for i, r := range rets {
+			if ex.May[i] && (r.kind == "has" && v == "F" || r.kind == "hasnot" && v == "T") {
+				return false
+			}
+		}
+	}
+	return true
 }
